@@ -12,6 +12,9 @@ fn relators_by_start_gen(rels: &Vec<FreeWord>)
 
     for rel in rels {
         for w in relator_permutations(&rel) {
+            if w.len() == 0 {
+                continue;
+            }
             result.entry(w[0])
                 .and_modify(|v: &mut Vec<_>| v.push(w.clone()))
                 .or_insert(vec![w]);
